@@ -83,7 +83,7 @@ def gen_cases(ctx, n, prop):
         c = {"id": cid, "num_chains": nch, "num_cores": r.choice([1, 2, 4, 16]),
              "num_tune": r.choice([0, 1, 3, 6]), "num_draws": r.choice([0, 1, 4, 8]), "seed": r.randint(1, 10 ** 6),
              "sched_seed": r.randint(1, 2 ** 40), "max_sleep_us": r.choice([0, 50, 300, 1500]),
-             "dim": 2, "maxdepth": 3, "preset": r.choice(["diag_nuts", "diag_nuts", "lowrank_nuts", "diag_mclmc", "lowrank_mclmc"]),
+             "dim": 2, "maxdepth": 3, "preset": r.choice(["diag_nuts", "diag_nuts", "lowrank_nuts", "diag_mclmc", "lowrank_mclmc", "flow_mclmc", "flow_nuts"]),
              "script": [list(x) for x in r.choice(SCRIPTS)], "watchdog_s": 25}
         if r.random() < 0.4:
             c["sleep_us"] = [[r.randrange(nch), r.choice([50, 300])]]
